@@ -308,7 +308,7 @@ func runCheck(id, tier string) int {
 		return 2
 	}
 	kn := loadKnown()
-	replayDir := filepath.Join(home, "replays")
+	replayDir := envOr("VERIF_REPLAY_DIR", filepath.Join(home, "replays"))
 	var wg sync.WaitGroup
 	results := make([]workerResult, workers)
 	for w := 0; w < workers; w++ {
@@ -471,10 +471,11 @@ func runCheck(id, tier string) int {
 	}
 	ev := map[string]any{"property_id": id, "tier": tier, "seed": seed, "level": "exploration", "coverage": cov,
 		"assumptions": assumptions, "wall_s": wall, "violations": confirmed}
-	os.MkdirAll(filepath.Join(home, "evidence"), 0755)
+	evDir := envOr("VERIF_EVIDENCE_DIR", filepath.Join(home, "evidence"))
+	os.MkdirAll(evDir, 0755)
 	eb, _ := json.MarshalIndent(ev, "", " ")
 	if evals > 0 {
-		if err := os.WriteFile(filepath.Join(home, "evidence", id+".json"), eb, 0644); err != nil {
+		if err := os.WriteFile(filepath.Join(evDir, id+".json"), eb, 0644); err != nil {
 			harnessErrs = append(harnessErrs, "evidence: "+err.Error())
 		}
 	}
